@@ -359,8 +359,11 @@ fn exec_ticker(sc: &Scenario) -> Report {
         }
         let d_ns = INTERVALS_NS[(sc.c("interval") as usize) % INTERVALS_NS.len()];
         let d = Duration::from_nanos(d_ns);
-        let pb = ProgressBar::with_draw_target(Some(100), ProgressDrawTarget::term_like(Box::new(term.clone())))
-            .with_finish(finish_kind(sc.c("on_finish"), "fin"));
+        // the bar may start without a terminal and get one later (op "show"): a steady ticker
+        // enabled meanwhile has to tick the bar all the same once it can be seen
+        let mut visible = sc.c("start_hidden") != 1;
+        let first_target = if visible { ProgressDrawTarget::term_like(Box::new(term.clone())) } else { ProgressDrawTarget::hidden() };
+        let pb = ProgressBar::with_draw_target(Some(100), first_target).with_finish(finish_kind(sc.c("on_finish"), "fin"));
         pb.set_style(
             ProgressStyle::with_template("{spinner}|{pos}")
                 .unwrap()
@@ -403,6 +406,11 @@ fn exec_ticker(sc: &Scenario) -> Report {
                     }
                     r0
                 }
+                "show" => {
+                    let r0 = if visible { Ok(()) } else { call(|| pb.set_draw_target(ProgressDrawTarget::term_like(Box::new(term.clone())))) };
+                    visible = true;
+                    r0
+                }
                 "tick" => call(|| pb.tick()),
                 "inc" => call(|| pb.inc(op.n0())),
                 "set_message" => call(|| pb.set_message("m")),
@@ -436,7 +444,7 @@ fn exec_ticker(sc: &Scenario) -> Report {
                     // clock reads take
                     let period = d_ns + 8 * sc.c("now_jitter_ns") + slow_ns;
                     let expect = (k * d_ns / period).saturating_sub(1);
-                    if installed && !finished && painted_by_ticker < expect {
+                    if installed && !finished && visible && painted_by_ticker < expect {
                         r.violate(
                             "C08.ticker_does_not_tick",
                             format!("{at}: a steady ticker with interval {d_ns} ns is installed, {k} intervals passed, but only {painted_by_ticker} frames were painted by the ticker thread"),
@@ -596,6 +604,7 @@ impl Check for C08 {
             sc.set("interval", rng.below(5));
             sc.set("on_finish", rng.below(5));
             sc.set("slow_flush_ns", *rng.pick(&[0, 0, 0, 300_000, 5_000_000]));
+            sc.set("start_hidden", rng.chance(1, 5) as u64);
             if rng.chance(1, 2) {
                 // two bits per call: 0 = original handle, 1 = clone, 2 = upgraded weak handle
                 let mut m = 0u64;
@@ -618,6 +627,10 @@ impl Check for C08 {
                     5 => Op::new("set_message"),
                     _ => Op::new("finish").n(rng.below(5)),
                 });
+            }
+            if sc.c("start_hidden") == 1 {
+                let at = rng.usize_below(ops.len() + 1);
+                ops.insert(at, Op::new("show"));
             }
             sc.threads = vec![ops];
             return sc;
@@ -686,6 +699,6 @@ impl Check for C08 {
         }
     }
     fn shrink_cfg(&self) -> Vec<(&'static str, u64)> {
-        vec![("handle_mask", 0), ("slow_flush_ns", 0), ("panic_owner", 0), ("use_mp", 0), ("visible", 0), ("now_jitter_ns", 0), ("spurious_pm", 0), ("n_bars", 1), ("atomics_yield", 0)]
+        vec![("handle_mask", 0), ("slow_flush_ns", 0), ("panic_owner", 0), ("start_hidden", 0), ("use_mp", 0), ("visible", 0), ("now_jitter_ns", 0), ("spurious_pm", 0), ("n_bars", 1), ("atomics_yield", 0)]
     }
 }
